@@ -95,6 +95,9 @@ CONSTS = {"A": {"E": 100.0, "nu": 0.321, "Y0": 0.3,
           "B": {"E": 100.0e3, "nu": 0.25, "Y0": 30.0,
                 "linear": {"H": 500.0}, "voce": {"Ysat": 90.0, "eps0": 0.02}, "power law": {"n": 6.0, "eps0": 3e-4},
                 "rate": {"S": 10.0, "m": 4.0, "epsDot0": 1e-3}},
+          # nearly rate-insensitive metal (rate exponent 20): the overstress law is very steep at small plastic increments
+          "C": {"E": 100.0e3, "nu": 0.25, "Y0": 30.0, "linear": {"H": 500.0},
+                "rate": {"S": 10.0, "m": 20.0, "epsDot0": 1e-3}},
           # perfect plasticity: an admissible constant (the library's own test_RateSensitivity uses hardening modulus 0)
           "P": {"E": 100.0, "nu": 0.321, "Y0": 0.3, "linear": {"H": 0.0}},
           # perfect plasticity in SI units (Pa): stresses of order 1e8..1e11, so anything scaled by a bare tolerance instead
@@ -105,7 +108,9 @@ KINS = ["large", "small"]
 DTS = [("1e-3", 1e-3), ("1", 1.0), ("1e3", 1e3)]
 # uc:2.3x-yield / uc:3x-yield continue uc:2x-yield monotonically with SMALL plastic increments on top of an accumulated
 # plastic strain (a seeded change that only misbehaves when eqps_old exceeds half the root bracket went undetected)
-TARGETS = ["ut:1e-6", "uc:below-yield", "ut:at-yield", "uc:2x-yield", "uc:2.3x-yield", "uc:3x-yield", "ut:0.2", "shear+",
+# ut:1.0001x-yield: a tiny plastic increment from the virgin state; with a steep rate sensitivity (set C) the root sits 15
+# orders of magnitude below the upper end of the bracket and only bisection down to the step tolerance finds it (defect D30)
+TARGETS = ["ut:1e-6", "uc:below-yield", "ut:at-yield", "ut:1.0001x-yield", "uc:2x-yield", "uc:2.3x-yield", "uc:3x-yield", "ut:0.2", "shear+",
            "shear-", "biax", "rot", "zero"]
 
 
@@ -124,6 +129,8 @@ def _models(tier):
         for law in LAWS:
             for dl, _ in DTS:
                 ms.append({"kin": kin, "law": law, "rate": True, "dt": dl, "set": "A"})
+    for kin in KINS:
+        ms.append({"kin": kin, "law": "linear", "rate": True, "dt": "1", "set": "C"})
     for kin in KINS:
         ms.append({"kin": kin, "law": "linear", "rate": False, "dt": "1", "set": "P"})
     for kin in KINS:
@@ -200,6 +207,7 @@ def _targets(ref, seed):
     e_below, _ = ref.uniaxial_for_mises(Y0 * (1.0 - 1e-6), -1.0)
     e_at, m_at = ref.uniaxial_for_mises(Y0, +1.0)
     e_2y, _ = ref.uniaxial_for_mises(2.0 * Y0, -1.0)
+    e_just, _ = ref.uniaxial_for_mises(Y0 * (1.0 + 1e-4), +1.0)
     e_23y, _ = ref.uniaxial_for_mises(2.3 * Y0, -1.0)
     e_3y, _ = ref.uniaxial_for_mises(3.0 * Y0, -1.0)
     sh = onp.zeros((3, 3))
@@ -208,7 +216,7 @@ def _targets(ref, seed):
     R[0, 0] = R[1, 1] = onp.cos(theta)
     R[0, 1] = -onp.sin(theta)
     R[1, 0] = onp.sin(theta)
-    T = {"ut:1e-6": uni(1e-6), "uc:below-yield": uni(e_below), "ut:at-yield": uni(e_at), "uc:2x-yield": uni(e_2y),
+    T = {"ut:1e-6": uni(1e-6), "uc:below-yield": uni(e_below), "ut:at-yield": uni(e_at), "ut:1.0001x-yield": uni(e_just), "uc:2x-yield": uni(e_2y),
          "uc:2.3x-yield": uni(e_23y), "uc:3x-yield": uni(e_3y), "ut:0.2": uni(0.2), "shear+": sh, "shear-": -sh, "biax": onp.diag([biax, biax, 0.0]),
          "rot": R - onp.eye(3), "zero": onp.zeros((3, 3))}
     info = {"gamma": gamma, "biax": biax, "theta": theta, "e_below": e_below, "e_at": e_at, "e_2y": e_2y,
@@ -334,6 +342,16 @@ def _judge(ref, g, H, s0, out, dt):
         met["conditioning term 4*eps*eqps*Phi'' / Y0 (added to the residual tolerances)"] = 4.0 * cond / Y0
         r_new = ref.resid(e1f, a, e0, dt)
         r_old = ref.resid(e0, a, e0, dt)
+        # resolution window of the scalar solve: the library stops when its bracket is narrower than 2 eps (eqps_old +
+        # trial increment) <= 4 eps max(eqps, a) (its step tolerance; plus the rounding of eqps_old + increment).  With a
+        # steep power-law overstress (exponent 20) the residual changes by several per cent of Y0 over ONE spacing of eqps,
+        # which the derivative based conditioning term above underestimates by the factor m.  'To the solver tolerance'
+        # therefore also holds when the increasing reference residual changes sign within +-w of the returned eqps.
+        w = 8.0 * 2.220446049250313e-16 * onp.maximum(e1f, onp.abs(a))
+        r_hi = ref.resid(e1f + w, a, e0, dt)
+        r_lo = ref.resid(onp.maximum(e0, e1f - w), a, e0, dt)
+        fy_hi = m1["mises"] - ref.Y(e1f + w) - ref.sig_rate(e1f + w - e0, dt)
+        r_old_hi = ref.resid(e0 + w, a, e0, dt)
         met["stationarity |r| / Y0 (yielding)"] = onp.where(yielding, onp.abs(r_new), 0.0) / Y0
         met["one-sided -r(eqps_old) / Y0 (elastic)"] = onp.where(~yielding, onp.maximum(-r_old, 0.0), 0.0) / Y0
         phi_c = ref.committed_potential(H, s1f, e0, dt)
@@ -372,13 +390,15 @@ def _judge(ref, g, H, s0, out, dt):
             f.append(("eqps-decreased", {"eqps_old": e0[i], "eqps_new": e1[i]}))
         if not (iso[i] <= iso_tol):
             f.append(("not-isochoric", {iso_name: iso[i], "tol": iso_tol}))
-        if not (fy[i] <= tol_r[i]):
-            f.append(("yield-exceeded", {"yield_function": fy[i], "tol": tol_r[i], "mises": m1["mises"][i]}))
+        if not (fy[i] <= tol_r[i] or fy_hi[i] <= tol_r[i]):
+            f.append(("yield-exceeded", {"yield_function": fy[i], "tol": tol_r[i], "mises": m1["mises"][i],
+                                         "yield_function_at_eqps_plus_resolution": fy_hi[i]}))
         if yielding[i]:
-            if not (abs(r_new[i]) <= tol_r[i]):
-                f.append(("not-stationary", {"r_ref(eqps_new)": r_new[i], "tol": tol_r[i], "eqps_ref": e_star[i]}))
+            if not (abs(r_new[i]) <= tol_r[i] or (r_lo[i] <= tol_r[i] and r_hi[i] >= -tol_r[i])):
+                f.append(("not-stationary", {"r_ref(eqps_new)": r_new[i], "tol": tol_r[i], "eqps_ref": e_star[i],
+                                             "r_ref(eqps_new-w)": r_lo[i], "r_ref(eqps_new+w)": r_hi[i], "w": w[i]}))
         else:
-            if not (r_old[i] >= -tol_r[i]):
+            if not (r_old[i] >= -tol_r[i] or r_old_hi[i] >= -tol_r[i]):
                 f.append(("elastic-but-potential-decreases", {"r_ref(eqps_old)": r_old[i], "tol": tol_r[i],
                                                                "eqps_ref": e_star[i]}))
         if not (excess[i] <= 1e-11):
